@@ -65,6 +65,9 @@ var malformed = []struct{ name, line string }{
 	{"no-type", "msg=audit(1700000011.123:2001): arch=c000003e"},
 	// a terminator character in FRONT of content (LF-CR line endings, a stray CR): the line is not empty
 	{"cr-before-garbage", "\rgarbage after a carriage return"},
+	// a single token (a record cut off inside its first field)
+	{"node-prefix-only", "node=ip-10-0-0-12.ec2.internal"},
+	{"single-token", "type=SYSCALL"},
 	{"cr-before-record", "\rtype=USER_END msg=audit(1700000011.123:2001): pid=4242 uid=0 auid=9999 ses=7 msg='op=PAM:session_close res=success'"},
 }
 
@@ -390,7 +393,7 @@ func runC15(t *testing.T, run *mc.Run) int {
 	})
 	run.Note("observation, not judged (the statement speaks of non-empty lines): a blank record delivered as \"\\n\": %s", short(blank, 160))
 	cov := mc.Coverage{Level: "model_checking", States: len(shapes), Transitions: n, Traces: n, Evaluations: n, Distinct: interleaved, Exhaustive: complete, Samples: samples,
-		Rule:  fmt.Sprintf("every merge of the record sequences of %d kernel events (5-record SYSCALL group, simple record, 4-record SYSCALL group ending in EOE) that keeps each event's internal order, x {no fault (every merge); for every merge (thorough) / every 25th merge (quick): each of 8 malformed line shapes at every position; output write failing at the k-th write for every k, with the plain error and with errors that also match context.Canceled / DeadlineExceeded / ErrClosedPipe / EOF / EPIPE; 3 kinds of invalid login at every position}, delivered line by line to the real Auditd.Read in a synctest bubble ('does not return' = durably blocked). states = distinct stream shapes; distinct_nontrivial = shapes in which records of different kernel events interleave", nev),
+		Rule:  fmt.Sprintf("every merge of the record sequences of %d kernel events (5-record SYSCALL group, simple record, 4-record SYSCALL group ending in EOE) that keeps each event's internal order, x {no fault (every merge); for every merge (thorough) / every 25th merge (quick): each of 10 malformed line shapes at every position; output write failing at the k-th write for every k, with the plain error and with errors that also match context.Canceled / DeadlineExceeded / ErrClosedPipe / EOF / EPIPE; 3 kinds of invalid login at every position}, delivered line by line to the real Auditd.Read in a synctest bubble ('does not return' = durably blocked). states = distinct stream shapes; distinct_nontrivial = shapes in which records of different kernel events interleave", nev),
 		Extra: map[string]any{"kernel_events": nev, "stream_shapes": len(shapes), "malformed_shapes": len(malformed)}}
 	cov.Assumptions = []string{"testing/synctest durable-blocking semantics and virtual clock", "events are observed through the real tracker with the session bound, i.e. at the output writer"}
 	return run.Finish(cov)
